@@ -401,7 +401,8 @@ impl<K: El, V: El> Mon<K, V> {
                 return Err(v);
             }
             Ok(Err(mut v)) => {
-                if capacity_call_while_split(op.code, &st0) && v.prop != HARNESS {
+                // (only panics: a contract figure that is off, e.g. the shrink floor, is C10's alone)
+                if capacity_call_while_split(op.code, &st0) && v.prop != HARNESS && v.more.contains(&"C01") {
                     v.extra.push("C04");
                 }
                 return Err(v);
@@ -434,7 +435,7 @@ impl<K: El, V: El> Mon<K, V> {
         if let Err(mut v) = self.post(op, &st0, loc0, &out) {
             // a reserve / shrink issued mid-resize that panics or loses elements has interrupted
             // the resize in progress: that is C04's subject as well
-            if capacity_call_while_split(op.code, &st0) && v.prop != HARNESS && v.prop != "C04" && matches!(v.prop, "C10" | "C01") {
+            if capacity_call_while_split(op.code, &st0) && v.prop != HARNESS && v.prop != "C04" && (v.prop == "C01" || v.more.contains(&"C01")) {
                 v.extra.push("C04");
             }
             // a hard violation ends the history before the ledger rule is evaluated: evaluate it
